@@ -10,7 +10,7 @@ CHECKS = {
     "C09": {
         "level": "exploration",
         "tests": [
-            {"pkg": "walx", "run": "^TestC09_WalModel$", "quick": 16000, "thorough": 400000},
+            {"pkg": "walx", "run": "^TestC09_WalModel$", "quick": 16000, "thorough": 1600000},
         ],
         "floors": {"cross_segment_truncate": 0.10, "rollover": 0.4},
         "rule": "rapid state machine over a real WAL (segment size 128..8192 B, SyncData on/off, entry sizes "
@@ -30,8 +30,8 @@ CHECKS = {
     "C10": {
         "level": "fault_enumeration",
         "tests": [
-            {"pkg": "walx", "run": "^TestC10_Crash$", "quick": 40000, "thorough": 600000},
-            {"pkg": "walx", "run": "^TestC10_Corrupt$", "quick": 40000, "thorough": 600000},
+            {"pkg": "walx", "run": "^TestC10_Crash$", "quick": 40000, "thorough": 2400000},
+            {"pkg": "walx", "run": "^TestC10_Corrupt$", "quick": 40000, "thorough": 2400000},
         ],
         "floors": {"hit_stored_bytes": 0.15, "tail_record_hit": 0.10},
         "rule": "(a) power-loss images of a real WAL (SyncData=true): the durable content of each segment file is what it "
@@ -57,9 +57,9 @@ CHECKS = {
     "C11": {
         "level": "exploration",
         "tests": [
-            {"pkg": "kvx", "run": "^TestC11_Laws$", "quick": 200000, "thorough": 6000000},
-            {"pkg": "kvx", "run": "^TestC11_Comparer$", "quick": 200000, "thorough": 6000000},
-            {"pkg": "kvx", "run": "^TestC11_Engine$", "quick": 400, "thorough": 8000},
+            {"pkg": "kvx", "run": "^TestC11_Laws$", "quick": 200000, "thorough": 30000000},
+            {"pkg": "kvx", "run": "^TestC11_Comparer$", "quick": 200000, "thorough": 30000000},
+            {"pkg": "kvx", "run": "^TestC11_Engine$", "quick": 400, "thorough": 48000},
         ],
         "floors": {"ge3_blocks": {"quick": 100, "thorough": 2000}},
         "rule": "(a) triples of byte strings (adversarial alphabet {-./01ab~,0x00,0xff} or arbitrary bytes, length 0..12, related by "
@@ -76,7 +76,7 @@ CHECKS = {
     "C12": {
         "level": "exploration",
         "tests": [
-            {"pkg": "kvx", "run": "^TestC12_Model$", "quick": 2400, "thorough": 60000},
+            {"pkg": "kvx", "run": "^TestC12_Model$", "quick": 2400, "thorough": 120000},
         ],
         "floors": {"multi_op_one_key": 0.2, "range_over_100": 0.05},
         "rule": "rapid state machine over a real kv.DB driven through the exported callback chain used by leader and follower "
@@ -97,8 +97,8 @@ CHECKS = {
     "C13": {
         "level": "exploration",
         "tests": [
-            {"pkg": "kvx", "run": "^TestC13_Structured$", "quick": 6000, "thorough": 150000},
-            {"pkg": "leaderx", "run": "^TestC13_Replay$", "quick": 600, "thorough": 20000},
+            {"pkg": "kvx", "run": "^TestC13_Structured$", "quick": 6000, "thorough": 750000},
+            {"pkg": "leaderx", "run": "^TestC13_Replay$", "quick": 600, "thorough": 100000},
         ],
         "floors": {"outside_client_library": 0.25, "non_utf8_string": 0.02},
         "rule": "sequences of 1-12 WriteRequests a client can put on the wire (any bytes in string fields, including strings that are not valid UTF-8 - the server's vtprotobuf codec accepts them; keys outside '__oxia/'), including ones "
@@ -119,7 +119,7 @@ CHECKS = {
     "C16": {
         "level": "exploration",
         "tests": [
-            {"pkg": "kvx", "run": "^TestC16_Sequences$", "quick": 4000, "thorough": 100000},
+            {"pkg": "kvx", "run": "^TestC16_Sequences$", "quick": 4000, "thorough": 500000},
         ],
         "floors": {"multi_put_one_prefix": 0.2, "deleted_max": 0.2},
         "rule": "rapid state machine over a real kv.DB: requests with 1-3 well-formed sequence puts over 1-3 prefixes (1-3 deltas, "
@@ -136,8 +136,8 @@ CHECKS = {
     "C17": {
         "level": "exploration",
         "tests": [
-            {"pkg": "kvx", "run": "^TestC17_Content$", "quick": 3000, "thorough": 80000},
-            {"pkg": "leaderx", "run": "^TestC17_Stream$", "quick": 800, "thorough": 30000},
+            {"pkg": "kvx", "run": "^TestC17_Content$", "quick": 3000, "thorough": 320000},
+            {"pkg": "leaderx", "run": "^TestC17_Stream$", "quick": 800, "thorough": 60000},
         ],
         "floors": {"trim_removed": 0.08, "resumed_from_last_seen": 0.05},
         "rule": "rapid state machine over a real kv.DB with notifications enabled: generated write requests (puts+deletes of one "
@@ -154,8 +154,8 @@ CHECKS = {
     "C08": {
         "level": "exploration",
         "tests": [
-            {"pkg": "leaderx", "run": "^TestC08_Pipeline$", "quick": 600, "thorough": 60000},
-            {"pkg": "leaderx", "run": "^TestC08_Tracker$", "quick": 40000, "thorough": 8000000},
+            {"pkg": "leaderx", "run": "^TestC08_Pipeline$", "quick": 600, "thorough": 100000},
+            {"pkg": "leaderx", "run": "^TestC08_Tracker$", "quick": 40000, "thorough": 10000000},
         ],
         "floors": {"concurrent_writers": 0.005, "duplicate_ack": 0.05},
         "rule": "(a) a real RF=1 LeaderController (real WAL with 4 KiB..1 MiB segments, real Pebble) with 1-12 concurrent writer "
@@ -176,7 +176,7 @@ CHECKS = {
     "C14": {
         "level": "exploration",
         "tests": [
-            {"pkg": "leaderx", "run": "^TestC14_Sessions$", "quick": 800, "thorough": 20000},
+            {"pkg": "leaderx", "run": "^TestC14_Sessions$", "quick": 800, "thorough": 120000},
             {"pkg": "leaderx", "run": "^TestC14_Expiry$", "quick": 64, "thorough": 1600, "shards": {"quick": 8, "thorough": 16}, "shrinktime": "20s"},
         ],
         "floors": {"takeover": 0.02, "leader_change": 0.15, "session_expired": {"quick": 30, "thorough": 800}},
@@ -196,7 +196,7 @@ CHECKS = {
     "C15": {
         "level": "exploration",
         "tests": [
-            {"pkg": "leaderx", "run": "^TestC15_Indexes$", "quick": 1000, "thorough": 25000},
+            {"pkg": "leaderx", "run": "^TestC15_Indexes$", "quick": 1000, "thorough": 75000},
         ],
         "floors": {"two_indexes_populated": 0.3, "probe_outside_index_range": 0.3},
         "rule": "rapid state machine over a real RF=1 LeaderController: generated writes with 0-2 index declarations per put over "
@@ -213,7 +213,7 @@ CHECKS = {
     "C01": {
         "level": "fault_enumeration",
         "tests": [
-            {"pkg": "clusterx", "run": "^TestC01_Cluster$", "quick": 160, "thorough": 4200, "shards": {"quick": 5, "thorough": 14}, "shrinktime": "20s"},
+            {"pkg": "clusterx", "run": "^TestC01_Cluster$", "quick": 160, "thorough": 8400, "shards": {"quick": 5, "thorough": 14}, "shrinktime": "20s"},
         ],
         "floors": {"election_triggered": 0.05},
         "rule": "generated programs of 8-30 steps over a cluster of 3 or 5 real storage nodes (+0-1 spare) and the real coordinator ShardController, all in one process and connected by a harness-owned wire: client writes (put / conditional put / delete / delete-range, each with a unique marker record) and reads sent to the node the client believes to be leader (current, remembered or arbitrary), bursts of 2-4 concurrent operations, isolate / cut link / heal, graceful node restart, node stop/start (minority), 'node unavailable' notifications to the coordinator, coordinator restart from the stored metadata, holding a node's next NewTerm response, node swap to the spare, settle pauses; WAL segments of 1 KiB..64 KiB so rollovers and truncations cross segments. At the end everything is healed and restarted, a fresh coordinator elects, a final write is issued and the ensemble catches up. Every message, metadata store and client invoke/return is recorded in one ordered history. Oracle (C01): every acknowledged write's marker is in the final leader's log (exactly once) and the final leader's database equals the in-order application of its own log to an empty database (decoded dump comparison). Non-trivial: >=1 acknowledged write and >=1 of {election triggered, restart, partition, swap, coordinator restart}.",
@@ -222,7 +222,7 @@ CHECKS = {
     "C02": {
         "level": "exploration",
         "tests": [
-            {"pkg": "clusterx", "run": "^TestC02_Cluster$", "quick": 160, "thorough": 4200, "shards": {"quick": 5, "thorough": 14}, "shrinktime": "20s"},
+            {"pkg": "clusterx", "run": "^TestC02_Cluster$", "quick": 160, "thorough": 8400, "shards": {"quick": 5, "thorough": 14}, "shrinktime": "20s"},
         ],
         "floors": {"election_triggered": 0.05},
         "rule": "generated programs of 8-30 steps over a cluster of 3 or 5 real storage nodes (+0-1 spare) and the real coordinator ShardController, all in one process and connected by a harness-owned wire: client writes (put / conditional put / delete / delete-range, each with a unique marker record) and reads sent to the node the client believes to be leader (current, remembered or arbitrary), bursts of 2-4 concurrent operations, isolate / cut link / heal, graceful node restart, node stop/start (minority), 'node unavailable' notifications to the coordinator, coordinator restart from the stored metadata, holding a node's next NewTerm response, node swap to the spare, settle pauses; WAL segments of 1 KiB..64 KiB so rollovers and truncations cross segments. At the end everything is healed and restarted, a fresh coordinator elects, a final write is issued and the ensemble catches up. Every message, metadata store and client invoke/return is recorded in one ordered history. Oracle (C02): the committed log of the final leader is the candidate linearization: no request appears twice; a request refused before its WAL append never appears; each acknowledged response equals what the reference fold yields at its log position; real-time order of non-overlapping writes is respected; every successful read equals the state after some committed prefix inside its real-time window (a read at a node whose term was already superseded in the metadata store may be older, but must still match a committed prefix). Non-trivial: as C01 plus >=1 burst of concurrent operations.",
@@ -231,7 +231,7 @@ CHECKS = {
     "C03": {
         "level": "exploration",
         "tests": [
-            {"pkg": "clusterx", "run": "^TestC03_Cluster$", "quick": 160, "thorough": 4200, "shards": {"quick": 5, "thorough": 14}, "shrinktime": "20s"},
+            {"pkg": "clusterx", "run": "^TestC03_Cluster$", "quick": 160, "thorough": 8400, "shards": {"quick": 5, "thorough": 14}, "shrinktime": "20s"},
             {"pkg": "clusterx", "run": "^TestC03_Follower$", "quick": 600, "thorough": 20000, "shards": {"quick": 4, "thorough": 14}, "shrinktime": "20s"},
         ],
         "floors": {"election_triggered": 0.05},
@@ -241,7 +241,7 @@ CHECKS = {
     "C04": {
         "level": "exploration",
         "tests": [
-            {"pkg": "clusterx", "run": "^TestC04_Cluster$", "quick": 160, "thorough": 4200, "shards": {"quick": 5, "thorough": 14}, "shrinktime": "20s"},
+            {"pkg": "clusterx", "run": "^TestC04_Cluster$", "quick": 160, "thorough": 8400, "shards": {"quick": 5, "thorough": 14}, "shrinktime": "20s"},
             {"pkg": "clusterx", "run": "^TestC04_Follower$", "quick": 600, "thorough": 20000, "shards": {"quick": 4, "thorough": 14}, "shrinktime": "20s"},
         ],
         "floors": {"election_triggered": 0.05},
@@ -251,7 +251,7 @@ CHECKS = {
     "C05": {
         "level": "fault_enumeration",
         "tests": [
-            {"pkg": "clusterx", "run": "^TestC05_Cluster$", "quick": 160, "thorough": 4200, "shards": {"quick": 5, "thorough": 14}, "shrinktime": "20s"},
+            {"pkg": "clusterx", "run": "^TestC05_Cluster$", "quick": 160, "thorough": 8400, "shards": {"quick": 5, "thorough": 14}, "shrinktime": "20s"},
             {"pkg": "coordx", "run": "^TestC05_MetaFile$", "quick": 400, "thorough": 24000, "shards": {"quick": 4, "thorough": 16}, "shrinktime": "20s"},
         ],
         "floors": {"election_triggered": 0.03, "killed_inside_store": 0.02},
@@ -261,8 +261,8 @@ CHECKS = {
     "C20": {
         "level": "exploration",
         "tests": [
-            {"pkg": "clientx", "run": "^TestC20_Mixed$", "quick": 1200, "thorough": 30000},
-            {"pkg": "clientx", "run": "^TestC20_FanOut$", "quick": 1200, "thorough": 30000},
+            {"pkg": "clientx", "run": "^TestC20_Mixed$", "quick": 1200, "thorough": 100000},
+            {"pkg": "clientx", "run": "^TestC20_FanOut$", "quick": 1200, "thorough": 100000},
             {"pkg": "clientx", "run": "^TestC20_SlowWrites$", "quick": 240, "thorough": 8000},
         ],
         "rule": "the real public client (oxia.NewAsyncClient, unmodified) over loopback gRPC against harness-owned fake servers "
@@ -286,10 +286,10 @@ CHECKS = {
     "C18": {
         "level": "exploration",
         "tests": [
-            {"pkg": "coordx", "run": "^TestC18_GenerateShards$", "quick": 20000, "thorough": 400000},
-            {"pkg": "coordx", "run": "^TestC18_ConfigHistory$", "quick": 6000, "thorough": 120000},
-            {"pkg": "coordx", "run": "^TestC18_Coordinator$", "quick": 240, "thorough": 4000},
-            {"pkg": "clientx", "run": "^TestC18_ClientRouting$", "quick": 400, "thorough": 8000},
+            {"pkg": "coordx", "run": "^TestC18_GenerateShards$", "quick": 20000, "thorough": 2000000},
+            {"pkg": "coordx", "run": "^TestC18_ConfigHistory$", "quick": 6000, "thorough": 600000},
+            {"pkg": "coordx", "run": "^TestC18_Coordinator$", "quick": 240, "thorough": 16000},
+            {"pkg": "clientx", "run": "^TestC18_ClientRouting$", "quick": 400, "thorough": 32000},
         ],
         "rule": "(a) sharding.GenerateShards(base, n) for n in 1..4096 (some up to 65536): ranges sorted by min contiguous 0..2^32-1, no overlap, "
                 "ids base..base+n-1; (b) histories of 1-12 cluster configs (add/remove namespaces with name reuse, shard counts 1-64, "
@@ -309,8 +309,8 @@ CHECKS = {
     "C19": {
         "level": "exploration",
         "tests": [
-            {"pkg": "coordx", "run": "^TestC19_Selector$", "quick": 60000, "thorough": 1500000},
-            {"pkg": "coordx", "run": "^TestC19_Balancer$", "quick": 24000, "thorough": 400000},
+            {"pkg": "coordx", "run": "^TestC19_Selector$", "quick": 60000, "thorough": 12000000},
+            {"pkg": "coordx", "run": "^TestC19_Balancer$", "quick": 24000, "thorough": 3200000},
         ],
         "rule": "1-12 servers with labels from a 3x3 vocabulary (some servers unlabeled), policies in {none, one strict rule with 1-2 labels, "
                 "two strict rules}, rf 1-5 <= #servers, existing placements and load skew. (1) ensemble.NewSelector: the result is rf "
@@ -326,7 +326,7 @@ CHECKS = {
     "C06": {
         "level": "exploration",
         "tests": [
-            {"pkg": "clusterx", "run": "^TestC06_Routes$", "quick": 200, "thorough": 6000, "shards": {"quick": 4, "thorough": 14}, "shrinktime": "20s"},
+            {"pkg": "clusterx", "run": "^TestC06_Routes$", "quick": 200, "thorough": 36000, "shards": {"quick": 4, "thorough": 14}, "shrinktime": "20s"},
         ],
         "floors": {"snapshot_installed": 0.1, "rich_ops": 0.5},
         "rule": "a 3-node cluster (real nodes, real coordinator) with a drawn snapshot chunk size (1 B..1 MiB) receives 4-25 generated rich "
@@ -343,7 +343,7 @@ CHECKS = {
     "C07": {
         "level": "fault_enumeration",
         "tests": [
-            {"pkg": "leaderx", "run": "^TestC07_CrashReplay$", "quick": 1200, "thorough": 30000},
+            {"pkg": "leaderx", "run": "^TestC07_CrashReplay$", "quick": 1200, "thorough": 240000},
         ],
         "floors": {"image_inside_run": 0.3},
         "rule": "an RF=1 leader with 1-4 concurrent writers applies 2-14 generated rich requests; right after the k-th Pebble batch "
